@@ -15,6 +15,8 @@ mod leaf;
 mod parser;
 mod pattern;
 mod util;
+#[cfg(feature = "verif_hooks")]
+pub mod verif_hooks;
 
 #[macro_use]
 #[allow(missing_docs)]
@@ -327,6 +329,8 @@ pub fn generate(input: TokenStream) -> TokenStream {
         }
     };
 
+    #[cfg(feature = "verif_hooks")]
+    verif_hooks::capture(&graph);
     debug!("Generated Automaton:\n{:?}", graph.dfa());
     debug!("Generated Graph:\n{graph}");
     debug!("Root node: {:?}", graph.root());
@@ -399,6 +403,10 @@ pub fn generate(input: TokenStream) -> TokenStream {
 
     let config = generator::Config {
         use_state_machine_codegen: cfg!(feature = "state_machine_codegen"),
+    };
+    #[cfg(feature = "verif_hooks")]
+    let config = generator::Config {
+        use_state_machine_codegen: verif_hooks::state_machine(config.use_state_machine_codegen),
     };
     let mut generator = Generator::new(
         config,
